@@ -127,12 +127,16 @@ def main(tier_: str) -> int:
             with da.app.test_request_context('/'):
                 for hv in (None, 4.0, 4.1, 4.2, 4.3):
                     for nk in (1, 2, 3):
-                        if hv in (4.0, 4.1) and nk > 1:
-                            continue
                         for la in (la_urls if tier_ == 'thorough' else rng.sample(la_urls, 2)):
                             ks = rng.sample(kids[-8:], nk)
+                            # the default key id (first of ks) takes every position of the key set: 4.0 / 4.1 headers
+                            # name only the default key and must carry that key's checksum
+                            order = list(ks)
+                            rng.shuffle(order)
+                            if nk > 1 and order[-1] == ks[0]:
+                                order = [order[-1]] + order[:-1]      # never last: the position that matters most
                             keys = {}
-                            for k in ks:
+                            for k in order:
                                 key = bytes(PlayReady.generate_content_key(k))
                                 keys[k.hex()] = SimpleNamespace(KID=KeyMaterial(raw=k), KEY=KeyMaterial(raw=key), ALG='AESCTR', computed=False)
                             pr = PlayReady(la_url=la, header_version=hv)
@@ -142,10 +146,8 @@ def main(tier_: str) -> int:
                                 lines.append({'ev': 'pro_error', 'hv': hv, 'nk': nk, 'err': f'{type(err).__name__}: {err}'[:200]})
                                 continue
                             rp = read_pro(pro)
-                            if hv in (None, 4.0, 4.1) or nk == 1 and rp['version'] in ('4.0.0.0', '4.1.0.0'):
-                                want_kids = ks[:1] if rp['version'] in ('4.0.0.0', '4.1.0.0') else ks
-                            else:
-                                want_kids = ks
+                            # 4.0 / 4.1 headers list the default key only; 4.2 / 4.3 list the key set in its own order
+                            want_kids = ks[:1] if rp['version'] in ('4.0.0.0', '4.1.0.0') else order
                             cfgs = ''
                             try:
                                 exp_la = la.format(cfgs='{cfgs}', default_kid=ks[0].hex(), kids='{kids}')
